@@ -702,7 +702,7 @@ func (be *BigEval) step(st btState, ins ssa.Instruction) {
 			if m == "" {
 				for _, a := range args {
 					if isBigIntPtr(a.Type()) {
-						if _, ok := siteOf(a).(*ssa.Alloc); ok && !pureBigCallee(x) {
+						if _, ok := siteOf(a).(*ssa.Alloc); ok && !pureBigCallee(x) && be.P.mayMutateArg(x, a) {
 							st[siteOf(a)] = termTop()
 						}
 					}
@@ -763,6 +763,16 @@ func (be *BigEval) step(st btState, ins ssa.Instruction) {
 			}
 		case "SetBytes":
 			res = termOpaque("SetBytes(" + desc(args[1]) + ")")
+		case "GCD":
+			// z.GCD(x, y, a, b): z = gcd(a,b); x, y receive the Bezout coefficients
+			ta, tb := get(3), get(4)
+			res = termFn("GCD", ta, tb)
+			if !isNilConst(args[1]) {
+				st[siteOf(args[1])] = termFn("BezoutX", ta, tb)
+			}
+			if !isNilConst(args[2]) {
+				st[siteOf(args[2])] = termFn("BezoutY", ta, tb)
+			}
 		default:
 			res = termTop()
 		}
@@ -1038,4 +1048,100 @@ func (P *Program) globalBigConst(g *ssa.Global) (int64, bool) {
 		return *p, true
 	}
 	return 0, false
+}
+
+var mutMemo = map[string]int{}
+
+// mayMutateArg: may the (module) callee of c write the big.Int passed as argument a?
+func (P *Program) mayMutateArg(c *ssa.Call, a ssa.Value) bool {
+	cs := P.callees(c)
+	if len(cs) == 0 {
+		return true
+	}
+	off := 0
+	if c.Call.IsInvoke() {
+		off = 1
+	}
+	for j, x := range c.Call.Args {
+		if x != a {
+			continue
+		}
+		for _, g := range cs {
+			if !inModuleFn(g) || g.Blocks == nil {
+				return true
+			}
+			if P.mutatesParam(g, j+off, 0) {
+				return true
+			}
+		}
+	}
+	return false
+}
+
+func (P *Program) mutatesParam(g *ssa.Function, k, depth int) bool {
+	if k >= len(g.Params) || depth > 6 {
+		return true
+	}
+	key := fmt.Sprintf("%s#%d", FuncKey(g), k)
+	switch mutMemo[key] {
+	case 1:
+		return true
+	case 2, 3:
+		return false
+	}
+	mutMemo[key] = 3
+	res := false
+	seen := map[ssa.Value]bool{}
+	var visit func(v ssa.Value)
+	visit = func(v ssa.Value) {
+		if res || seen[v] {
+			return
+		}
+		seen[v] = true
+		for _, r := range referrersOf(v) {
+			switch u := r.(type) {
+			case *ssa.Call:
+				if m := bigMethod(u); m != "" {
+					if bigMutators[m] && len(u.Call.Args) > 0 && u.Call.Args[0] == v {
+						res = true
+					}
+					if m == "GCD" && (u.Call.Args[1] == v || u.Call.Args[2] == v) {
+						res = true
+					}
+					continue
+				}
+				off := 0
+				if u.Call.IsInvoke() {
+					off = 1
+				}
+				for j, a := range u.Call.Args {
+					if a != v {
+						continue
+					}
+					hs := P.callees(u)
+					if len(hs) == 0 {
+						res = true
+					}
+					for _, h := range hs {
+						if !inModuleFn(h) || h.Blocks == nil || P.mutatesParam(h, j+off, depth+1) {
+							res = true
+						}
+					}
+				}
+			case *ssa.Phi, *ssa.ChangeType:
+				visit(u.(ssa.Value))
+			case *ssa.Store:
+				if u.Val == v {
+					res = true // escapes
+				}
+			}
+		}
+	}
+	visit(g.Params[k])
+	if res {
+		mutMemo[key] = 1
+	} else {
+		mutMemo[key] = 2
+	}
+	return res
 }
